@@ -303,7 +303,7 @@ def call(fn, rt, *a, **k):
     return fn(*a, **k), None
 
 
-OPS_ND = ["crop", "crop_to_landmarks", "crop_to_landmarks_proportion", "crop_to_pointcloud", "rescale", "rescale_per_axis", "resize", "mirror", "warp_affine",
+OPS_ND = ["crop", "crop_to_landmarks", "crop_to_landmarks_proportion", "crop_to_pointcloud", "rescale", "rescale_per_axis", "resize", "mirror", "warp_affine", "warp_alignment",
           "rescale_to_diagonal", "zoom", "pyramid", "warp_to_mask_affine", "rescale_to_pointcloud"]
 OPS_2D = OPS_ND + ["rotate", "transform_about_centre", "rescale_landmarks_to_diagonal_range", "gaussian_pyramid", "warp_chain", "warp_pwa", "warp_tps",
                    "crop_to_true_mask", "crop_to_pointcloud_proportion", "rotate_retain"]
@@ -467,7 +467,16 @@ def w_ops(ctx, rng, i):
             src.landmarks["g0"] = ms.PointCloud(P)
             lmc = ["PointCloud"]
         tshape = tuple(int(v) for v in rng.integers(base - 10, base + 6, d))
-        if op in ("warp_affine", "warp_to_mask_affine", "warp_chain"):
+        if op == "warp_alignment":
+            # an alignment fitted to noisy correspondences (non-zero residual): template-side points -> source-side points
+            k = int(rng.integers(d + 2, 9))
+            A = gen.well_conditioned(rng, d, 0.7, 1.4)
+            tp = rng.uniform(0.1, 0.9, (k, d)) * (np.array(tshape) - 1)
+            sp = (tp - np.array(tshape) / 2.0) @ A.T + S / 2.0 + rng.normal(scale=0.8, size=(k, d))
+            akind = ["AlignmentAffine", "AlignmentSimilarity", "AlignmentTranslation"][rng.integers(0, 3)]
+            t = getattr(mt, akind)(ms.PointCloud(tp), ms.PointCloud(sp))
+            opts_extra = akind
+        elif op in ("warp_affine", "warp_to_mask_affine", "warp_chain"):
             h = np.eye(d + 1)
             h[:d, :d] = gen.well_conditioned(rng, d, 0.6, 1.6)
             c_t, c_s = np.array(tshape) / 2.0, S / 2.0
@@ -524,7 +533,7 @@ def w_ops(ctx, rng, i):
                 del src.landmarks[k]
     # ------------------------------------------------------------------ judge
     judged = 0
-    Tknown = t if op in ("warp_tps", "warp_pwa", "warp_affine") else None
+    Tknown = t if op in ("warp_tps", "warp_pwa", "warp_affine", "warp_alignment") else None
     for lv, (res, T) in enumerate(results):
         # nearest-neighbour mask sampling loses up to half a pixel of each level's own grid
         band = 1.01 + (opts["downscale"] ** (lv + 1) if op in ("pyramid", "gaussian_pyramid") else 0.0)
